@@ -253,6 +253,10 @@ func GenCase(t *rapid.T, b Bias) Case {
 			p = 100
 		}
 		c.Req = subset(t, "req", allResFields(), p)
+		if rapid.IntRange(0, 7).Draw(t, "emptyreq") == 0 {
+			c.Req = nil
+			c.Orig.NilParts = rapid.Bool().Draw(t, "nilreq") // nil vs empty resources section
+		}
 	}
 	// chain: a non-empty subset of the pool, in chain order
 	n := rapid.IntRange(1, poolSize).Draw(t, "nchain")
